@@ -304,8 +304,8 @@ def subst_case_with_probes(draw, kinds=PLAIN_KINDS, dict_bias=0):
     spec-aware near-misses of the original spec (tolerance nudges, +-1 lengths, extra / dropped
     keys, out-of-alphabet characters, out-of-bound numbers)."""
     c = draw(subst_case(kinds=kinds, sat=True, dict_bias=dict_bias))
-    probes = []
     v = c["value"]
+    probes = [v]            # the substituted value itself (a partial one is accepted by neither side)
     for _ in range(3):
         probes.append(draw(values.perturb(v))[0])
     if c["full"] is not None:
